@@ -37,6 +37,8 @@ func init() {
 	feature("tests", featTests)
 	feature("methparam", featMethodStructParam)
 	feature("samenames", featSameNames)
+	// Not in featureOrder (never picked at random): only programs that ask for it get it.
+	featureTable["testdeps"] = featTestDeps
 }
 
 // d merges name tables and extra values for templates.
@@ -1241,4 +1243,64 @@ func «.fn»(args []string) {
 	fmt.Println("tested", «.q»«.Double»(len(args)+1), «.q»«.Half»(9))
 }
 `, d(n, map[string]string{"fn": fn, "q": q}))
+}
+
+// featTestDeps: a package under test (internal test file, so it is recompiled for its test
+// binary) whose external test imports a second package that imports the package under test:
+// that second package is recompiled for the test as well ("dep [foo.test]").
+func featTestDeps(g *Gen) {
+	lo, hi := g.twoLibs()
+	g.HasTests = true
+	n1 := g.names(lo, "Base=func,E", "hidden=func,u", "Hook=var,E")
+	f1 := g.newFile(lo, "tdbase")
+	f1.add(`
+//go:noinline
+func «.Base»(v int) int { return v*3 + «.hidden»() }
+
+//go:noinline
+func «.hidden»() int { return 1 }
+`, n1)
+	tag := randAlnum(g.R, 5)
+	tf := lo.file("zq" + randLower(g.R, 6) + "tdint_test.go")
+	tf.std("testing")
+	tf.add(`
+// exported only while testing
+var «.Hook» = «.hidden»
+
+func TestTd`+tag+`Internal(t *testing.T) {
+	if «.hidden»() != 1 {
+		t.Fatal("hidden")
+	}
+}
+`, n1)
+	n2 := g.names(hi, "Twice=func,E")
+	f2 := g.newFile(hi, "tddep")
+	q1 := f2.use(lo, g.R)
+	f2.add(`
+//go:noinline
+func «.Twice»(v int) int { return «.q1»«.Base»(v) * 2 }
+`, d(n1, n2, map[string]string{"q1": q1}))
+	xf := lo.file("zq" + randLower(g.R, 6) + "tdext_test.go")
+	xf.pkg = &GPkg{Name: lo.Name + "_test", Path: lo.Path}
+	xf.std("testing")
+	xf.imports[lo.Path] = ""
+	xf.imports[hi.Path] = ""
+	xf.add(`
+func TestTd`+tag+`ThroughDependant(t *testing.T) {
+	if got, want := «.qh».«.Twice»(2), 2*«.ql».«.Base»(2); got != want {
+		t.Fatalf("got %d want %d", got, want)
+	}
+	if «.ql».«.Hook»() != 1 {
+		t.Fatal("hook")
+	}
+}
+`, d(n1, n2, map[string]string{"ql": lo.Name, "qh": hi.Name}))
+	mf, fn := g.mainFeat("tddep")
+	mf.std("fmt")
+	qa, qb := mf.use(lo, g.R), mf.use(hi, g.R)
+	mf.add(`
+func «.fn»(args []string) {
+	fmt.Println("tddep", «.qa»«.Base»(len(args)), «.qb»«.Twice»(len(args)+1))
+}
+`, d(n1, n2, map[string]string{"fn": fn, "qa": qa, "qb": qb}))
 }
